@@ -119,3 +119,26 @@ Print Assumptions C05_dispatch_ok.
 Theorem C05_dispatch_table_complete : length op_table = 256 /\ values_ok op_table = true.
 Proof. destruct dispatch_table_ok as (H1 & H2 & _). auto. Qed.
 Print Assumptions C05_dispatch_table_complete.
+
+(** era limits and flag bit positions against the constants regenerated from config.go / scriptflag.go *)
+From GoBT Require Import gen.InterpConsts proofs.InterpConstsProofs.
+From Coq Require Import String.
+Local Open Scope string_scope.
+Theorem C05_config_limits_match :
+  lookup config_consts "MaxOpsBeforeGenesis" = Some (max_ops pre_genesis_ctx) /\
+  lookup config_consts "MaxStackSizeBeforeGenesis" = Some (max_stack pre_genesis_ctx) /\
+  lookup config_consts "MaxScriptSizeBeforeGenesis" = Some (max_script_size pre_genesis_ctx) /\
+  lookup config_consts "MaxScriptElementSizeBeforeGenesis" = Some (max_elem pre_genesis_ctx) /\
+  lookup config_consts "MaxScriptNumberLengthBeforeGenesis" = Some (max_numlen pre_genesis_ctx) /\
+  lookup config_consts "MaxPubKeysPerMultiSigBeforeGenesis" = Some (max_pubkeys pre_genesis_ctx).
+Proof. exact config_limits_match. Qed.
+Print Assumptions C05_config_limits_match.
+Theorem C05_locktime_consts_match :
+  lookup consensus_consts "LockTimeThreshold" = Some 500000000%Z /\
+  lookup sequence_consts "MaxTxInSequenceNum" = Some 4294967295%Z /\
+  lookup sequence_consts "SequenceLockTimeDisabled" = Some (2 ^ 31)%Z /\
+  lookup sequence_consts "SequenceLockTimeIsSeconds" = Some 4194304%Z /\
+  lookup sequence_consts "SequenceLockTimeMask" = Some 65535%Z /\
+  (4194304 + 65535 = 4259839)%Z.
+Proof. exact locktime_consts_match. Qed.
+Print Assumptions C05_locktime_consts_match.
